@@ -63,7 +63,12 @@ def solve_history():
         st.fixed_dictionaries(dict(op=st.just('set_thickness'), s=st.integers(0, 1), v=f(0.5, 20.0))),
         st.fixed_dictionaries(dict(op=st.just('set_radius'), s=sel, v=val_R)),
         st.fixed_dictionaries(dict(op=st.just('set_conic'), s=sel, v=val_k)))
-    return st.tuples(st.lists(solve, min_size=2, max_size=3), st.lists(weighted((2, edit), (1, upd), (1, solve)), min_size=1, max_size=8)
+    # a radius pickup whose target lies in front of the solved surfaces (small selectors): pickups and solves then
+    # interact in update()
+    pick = st.fixed_dictionaries(dict(op=st.just('pickup'), attr=st.just('radius'), src=st.integers(0, 3), tgt=st.integers(0, 3),
+                                      scale=st.sampled_from([1.0, -1.0, 0.5]), offset=st.sampled_from([0.0, 1.5])))
+    return st.tuples(st.lists(solve, min_size=2, max_size=3),
+                     st.lists(weighted((3, edit), (1, upd), (1, solve), (2, pick)), min_size=1, max_size=8)
                      ).map(lambda t: t[0] + t[1] + [dict(op='update')])
 
 
